@@ -5,7 +5,10 @@ and mean on [X_0; X_f1; ..; X_fk; X*]) and the specified noise for every final b
 Coq model (Models/C04_fantasy.v: the bordered update folded over the k steps, proved equal to
 conditioning on all the data) returns, for every prefix, the exact mean cache A'^-1 r', A'^-1 and
 the posterior at X*.  Compared with: fantasy_model(x*) mean / covariance, a fresh ExactGP on the
-concatenated data, the cache entries the fantasy strategy carries, and the source before/after."""
+concatenated data, the cache entries the fantasy strategy carries, and the source before/after.
+Families: default strategy x {Gaussian, FixedNoise, FixedNoise+learned}; multitask (MultitaskKernel + MultitaskGaussianLikelihood;
+rows = (point, task) interleaved, same Coq model with n := nT); KISS-GP (InterpolatedPredictionStrategy / WISKI update: predictions
+and source only, tol 1e-6); IndependentModelList.get_fantasy_model vs its members."""
 import copy
 import itertools
 import json
@@ -612,6 +615,11 @@ def evaluate(out, hs, tagname):
         for idx in itertools.product(*[range(v) for v in B]):
             cases.append(coq_case(h, KJ[idx].tolist(), mu[idx].tolist(), S[idx].tolist(), y[idx].tolist()))
             index.append((hi, idx))
+    # balance the 16 shards: exact inversion costs ~N^3 with growing numerators, so deal the cases out by decreasing size
+    cost = [len(c) for c in cases]
+    by_cost = sorted(range(len(cases)), key=lambda i: -cost[i])
+    order = [by_cost[j] for s_ in range(16) for j in range(s_, len(cases), 16)]
+    cases, index = [cases[i] for i in order], [index[i] for i in order]
     res = C.coq_run_cases(tagname, IMPORTS, RUN_DEF, cases, shard=max(1, (len(cases) + 15) // 16)) if cases else []
     by_h = {}
     for (hi, idx), r in zip(index, res):
@@ -745,7 +753,14 @@ def run(out, ctx):
             out.count("form=" + h["steps"][k - 1]["form"]); out.count("lik=" + h["lik"])
             out.count("flags=" + ("+".join(h["flags"]) or "default")); out.count("batch=" + ("x".join(map(str, h["b"])) or "none"))
     out.exhaustive = False
-    out.tested_not_proved = ["agreement of torch/linear_operator numerics (Cholesky, triangular inverse) with exact algebra",
+    out.extra["tolerances"]["KISS-GP (WISKI) predictions"] = TOL_INTERP
+    out.notes.append("KISS-GP histories run under no_grad only: after a prediction made with autograd enabled the grid kernel caches a "
+                     "non-leaf tensor and get_fantasy_model raises in deepcopy (a fresh fantasy call raises as well; source restored "
+                     "since /repo 5e27225) - treated as outside 'supported', see C03")
+    out.tested_not_proved = ["WISKI: from the updated interpolation-space caches to the posterior (Woodbury / root decompositions); "
+                             "only the additivity of the two caches is proved (c04_wiski_*_partial)",
+                             "IndependentModelList.get_fantasy_model (compared with its members' fantasy models and fresh models)",
+                             "agreement of torch/linear_operator numerics (Cholesky, triangular inverse) with exact algebra",
                              "batch-shape reconciliation of get_fantasy_model (checked per batch element against the specification "
                              "of the broadcast data, not modelled in Coq)",
                              "source-untouched on the real objects (bit-equality of predictions, state_dict, data, cache entries)"]
